@@ -106,7 +106,9 @@ class Report:
         for e in self.errors:
             print("CHECKER-ERROR %s" % e)
         nknown = sum(1 for o in self.obligations if o["verdict"] == "known-finding")
-        print("%s: %d obligations, %d discharged%s, %d violations, %d undecided, %d errors, %.1fs"
-              % (self.prop, n, discharged, (", %d failing as recorded known findings" % nknown) if nknown else "", len(self.violations), len(self.undecided),
+        nb = len(getattr(self, "bounded", []) or [])
+        print("%s: %d obligations, %d discharged%s%s, %d violations, %d undecided, %d errors, %.1fs"
+              % (self.prop, n, discharged, (", %d failing as recorded known findings" % nknown) if nknown else "",
+                 (", %d bounded stand-ins (not counted as obligations)" % nb) if nb else "", len(self.violations), len(self.undecided),
                  len(self.errors), time.time() - self.t0))
         return status
